@@ -221,7 +221,7 @@ func collectListings(idp string, text string, seen map[string]bool) []listingCas
 				seen[key] = true
 				n++
 				out = append(out, listingCase{ID: fmt.Sprintf("%s-%d", idp, n), Name: l.Name, Kind: kind, Nargs: l.Nargs,
-					Varargs: l.Varargs, Orig: trunc(l.Orig, 300), Src: trunc(text, 300), Instrs: instrs})
+					Varargs: l.Varargs, Orig: trunc(l.Orig, 300), Src: trunc(text, 4000), Instrs: instrs})
 			}
 			walk(l, kind)
 		}
@@ -269,6 +269,13 @@ func init() {
 				}
 				w.write(runSession(in.ID, texts, true))
 			})
+			return 0
+		}
+		if mode == "gentext" {
+			// development aid: print the generated program number -n of the listings mode
+			r := newRng(c.seed, uint64(c.n)+5000)
+			prog := genProgram(r, semSlices["mixed"], 2+r.intn(2))
+			fmt.Print(strings.ReplaceAll(renderProgram(prog, nil), "(tr ", "(list "))
 			return 0
 		}
 		if mode == "one" {
